@@ -5,6 +5,7 @@ import ast
 
 from sa.astx import assigned_targets, call_name, dotted, find_calls, src, statements, walk_local
 from sa.effects import class_accesses
+from sa.props._lib_a import inlined_func, root_callers
 from sa.selftest import Mutant, Silent
 
 PROPERTY = "C03"
@@ -36,7 +37,8 @@ def check(ctx):
     cls = ctx.cls(DEFER, "Deferred")
 
     # ---- (a) _startRunCallbacks ---------------------------------------------------------
-    f = ctx.func(DEFER, "Deferred._startRunCallbacks")
+    ctx.func(DEFER, "Deferred._startRunCallbacks")
+    f = inlined_func(ctx, DEFER, "Deferred._startRunCallbacks")
     g = ctx.cfg(f)
     q = "twisted.internet.defer.Deferred._startRunCallbacks"
     writes = [n for n in g.ids(lambda n: n.kind == "stmt" and isinstance(n.ast, ast.Assign)
@@ -101,25 +103,30 @@ def check(ctx):
 
     # ---- (b) who may write called / _suppressAlreadyCalled / _canceller ------------------------
     acc = class_accesses(mod, cls, {"called", "_suppressAlreadyCalled", "_canceller", "result"}, receivers={"self"})
+    def via(a, allowed):
+        # a write inside a private helper is judged by the functions it is reached from
+        return all(r in allowed for r in root_callers(mod, a.func))
+
     for a in acc:
         if a.attr == "called":
-            ctx.check(a.func == "Deferred._startRunCallbacks", "who-may-write/called", ctx.construct(a.func, a.node),
+            ctx.check(via(a, ("Deferred._startRunCallbacks",)), "who-may-write/called", ctx.construct(a.func, a.node),
                       "self.called written outside _startRunCallbacks")
         elif a.attr == "_suppressAlreadyCalled":
             v = getattr(a.node, "value", None)
             if isinstance(v, ast.Constant) and v.value is True:
-                ctx.check(a.func == "Deferred.cancel", "who-may-write/suppress-flag", ctx.construct(a.func, a.node),
+                ctx.check(via(a, ("Deferred.cancel",)), "who-may-write/suppress-flag", ctx.construct(a.func, a.node),
                           "_suppressAlreadyCalled armed outside cancel(): a result would be silently dropped")
             else:
-                ctx.check(a.func in ("Deferred._startRunCallbacks", "Deferred.__init__"), "who-may-write/suppress-flag",
+                ctx.check(via(a, ("Deferred._startRunCallbacks", "Deferred.__init__")), "who-may-write/suppress-flag",
                           ctx.construct(a.func, a.node), "_suppressAlreadyCalled written in an unexpected place")
         elif a.attr == "_canceller":
-            ctx.check(a.func in ("Deferred.__init__", "Deferred._startRunCallbacks"), "who-may-write/canceller",
+            ctx.check(via(a, ("Deferred.__init__", "Deferred._startRunCallbacks")), "who-may-write/canceller",
                       ctx.construct(a.func, a.node), "_canceller written in an unexpected place")
     ctx.floor("who-may-write", len(acc), 5)
 
     # ---- (c,d,e) cancel -----------------------------------------------------------------------
-    f = ctx.func(DEFER, "Deferred.cancel")
+    ctx.func(DEFER, "Deferred.cancel")
+    f = inlined_func(ctx, DEFER, "Deferred.cancel")
     g = ctx.cfg(f)
     q = "twisted.internet.defer.Deferred.cancel"
     # canceller call sites: calls whose callee is a local bound from self._canceller, or self._canceller(...)
@@ -191,7 +198,8 @@ def check(ctx):
 
     # ---- callback / errback reach _startRunCallbacks on every path --------------------------------
     for name in ("callback", "errback"):
-        f = ctx.func(DEFER, f"Deferred.{name}")
+        ctx.func(DEFER, f"Deferred.{name}")
+        f = inlined_func(ctx, DEFER, f"Deferred.{name}")
         g = ctx.cfg(f)
         q = f"twisted.internet.defer.Deferred.{name}"
         starts = g.find(lambda x: isinstance(x, ast.Call) and call_name(x) == "self._startRunCallbacks")
